@@ -20,7 +20,7 @@ REWRITES = loader.REWRITES
 STUBS = ["NumPy shim (object arrays, shadow dtype/shape); NumPy 2 OverflowError for Python ints outside a dtype is a fork on the range predicate",
          "bincount of symbolic magnitudes = sparse view (distinct magnitudes, concrete counts)", loader.SUMMARY_STUB]
 ASSUMPTIONS = ["class magnitudes are pairwise distinct and ascending in class order (patterns are enumerated over all labelled assignments, so this is no restriction for the exhaustive small patterns)",
-               "magnitudes anywhere in int64; without caller-supplied counts and with no negative value they are below 2^26 (numpy.bincount would allocate max+1 cells: an out-of-memory question, not a round-trip one)",
+               "magnitudes anywhere in int64; numpy.bincount(x) follows its allocation contract: max(x)+1 slots, empty result when that count wraps (int64 maximum), ValueError from 2^63 bytes, MemoryError from 2^47 bytes (no machine can allocate it), success below (a smaller allocation failing on a small machine is outside the claim)",
                "mapping targets pairwise distinct unless the pattern makes them equal (many-to-one); for the large (>8 cells) patterns targets are ascending in target order"]
 ENGINE_OPTS = {"quick": dict(wall_s=1500), "thorough": dict(wall_s=3400)}
 MAX_REPLAYS_PER_KIND = 4
@@ -111,8 +111,10 @@ def explore(cfg, eng, ctx, only=None):
             eng.assume(x >= lo, x <= hi)
             if i:
                 eng.assume(d[i - 1] < x)
-        if not cfg["counts"] and k:
-            eng.assume(z3.Or(d[0] < 0, d[-1] < 2 ** 26))
+        # counterexamples and replayed samples prefer small magnitudes (a replay of numpy.bincount allocates
+        # max + 1 slots); verdicts are not affected
+        for x in d:
+            eng.prefer.append(z3.And(x > -2 ** 20, x < 2 ** 20))
         cabs = z3.Int("c_absent")
         eng.assume(cabs >= lo, cabs <= hi, *[cabs != x for x in d])
         # which class is the (present) common value: the last class (rare) -- structure
